@@ -335,6 +335,12 @@ def _check(args):
                 r["default"] = rng.choice(["5", "0", "12", "100"])
             if r.get("name") and rng.random() < 0.2 and not r["type"].startswith(("begin", "end")):
                 r["required"] = rng.choice(["TRUE", "FALSE"])
+    if i % 6 == 1:
+        # a sheet that is not part of XLSForm, or a misspelt one: every reader ignores its rows and the spelling hint is the same
+        rx = rng_for(seed, PID, "extra-sheet", i)
+        nm = rx.choice(["notes", "Sheet1", "setting", "choice", "surveys_old", "sheet_names"])
+        if nm not in form and not (nm == "setting" and "settings" in form) and not (nm == "choice" and "choices" in form):
+            form[nm] = [{"a": "x", "b": "y"}, {"a": "1"}]
     multiline = False
     if i % 4 == 3:
         # a cell holding line breaks (or characters str.splitlines() would break on): representable in csv and spreadsheets, not in md
